@@ -17,3 +17,6 @@ uint8_t _ZNK10QSslSocket11isEncryptedEv(char *self) { return c08_encrypted; }
 /* branches of QXmppOutgoingClient::handleElement that an <iq xmlns='jabber:client'/> cannot take (stream features, stream errors): flagged if reached */
 void _ZN19QXmppStreamFeatures5parseERK11QDomElement(char *self, char *el) { ASSERT(0, "C08: stream features parsed for an iq element"); }
 void _ZN19QXmppOutgoingClient20handleStreamFeaturesERK19QXmppStreamFeatures(char *self, char *f) { ASSERT(0, "C08: handleStreamFeatures reached for an iq element"); }
+/* request-table model (c08_iqmap.h): capacity guard and index -> one of four concrete addresses */
+void vp_model_assert_cap(uint8_t ok) { ASSERT(ok, "C08 request-table model: capacity (3 entries) exceeded"); ASSUME(ok); }
+char* vp_pick4(uint32_t i, char *a, char *b, char *c, char *d) { return i == 0 ? a : i == 1 ? b : i == 2 ? c : d; }
